@@ -29,6 +29,22 @@ def gen_case(rng, tier, damaged, single_ok=True):
         tree = {"name": "bigpieces", "single": False, "dirs": [], "layout": "large-pieces",
                 "files": [[f"f{k}.bin", rng.choice([pl + pl // 2, 3 * pl + 7, pl - 1, 3 << 20, (7 << 20) + 1, pl]),
                            rng.randrange(1 << 30)] for k in range(n)]}
+    c = rng.random()
+    if c < 0.012:
+        # thousands of pieces: one damaged piece is a few hundredths of a percent of the payload
+        exp, pl = 14, 16384
+        tree = {"name": "manypieces", "single": False, "dirs": [], "layout": "many-pieces",
+                "files": [["a-small", rng.choice([9000, 100, 16384]), rng.randrange(1 << 30)],
+                          ["big.bin", (33 << 20) + rng.choice([0, 1, 5000]), rng.randrange(1 << 30)],
+                          ["z-tail", rng.choice([100, 20000]), rng.randrange(1 << 30)]]}
+        if single_ok and rng.random() < 0.3:
+            tree = {"name": "big.bin", "single": True, "dirs": [], "layout": "many-pieces", "files": [tree["files"][1]]}
+    elif c < 0.024 and not (damaged and False):
+        # a long run of consecutive empty files between ordinary ones (marker files, placeholders)
+        n = rng.randint(1100, 2000)
+        tree = {"name": "markers", "single": False, "dirs": [], "layout": "empties-run",
+                "files": [["a.bin", pl + 5, rng.randrange(1 << 30)]] +
+                         [[f"m/{k:05d}.done", 0, 0] for k in range(n)] + [["z.bin", rng.choice([7, pl, 40000]), rng.randrange(1 << 30)]]}
     version = rng.choice([1, 2, 3])
     if rng.random() < 0.5:
         enc = ["tool", rng.choice(TOOL_ROUTES[version])]
@@ -304,6 +320,10 @@ def _common_result(case, obs, viol, counters, sample_extra=None):
         counters["cases_with_megabyte_pieces"] = 1
     if case.get("spell"):
         counters["content_path_spelled_cases"] = 1
+    if case["tree"]["layout"] == "many-pieces":
+        counters["cases_with_thousands_of_pieces"] = 1
+    if case["tree"]["layout"] == "empties-run":
+        counters["cases_with_long_runs_of_empty_files"] = 1
     sample = {"files": [[f[0], f[1]] for f in case["tree"]["files"][:8]], "piece_length": 2 ** case["pl_exp"],
               "version": case["version"], "encoder": case["encoder"], "via": case["via"], "form": case["form"],
               "damage": case["damage"], "tool_result": obs.get("tool_result"),
